@@ -30,6 +30,7 @@ type Cfg struct {
 
 type DialEvent struct {
 	CallStep uint64 // step at which the dialing goroutine called Dial
+	CallAt   time.Duration // simulated time of that call
 	Step     uint64
 	At       time.Duration
 	Addr     string
@@ -1040,9 +1041,10 @@ func (n *Net) Dialer(ws bool) func(ctx context.Context, network, addr string) (n
 	return func(ctx context.Context, network, addr string) (net.Conn, error) {
 		simrt.AdoptChild("dial:" + addr)
 		callStep := n.S.Step() // when the caller decided to dial (the park below models scheduling delay)
+		callAt := n.S.Now()
 		simrt.Park("dial", addr)
 		n.mu.Lock()
-		ev := DialEvent{Step: n.S.Step(), CallStep: callStep, At: n.S.Now(), Addr: addr, G: simrt.Self(), Pipe: -1}
+		ev := DialEvent{Step: n.S.Step(), CallStep: callStep, CallAt: callAt, At: n.S.Now(), Addr: addr, G: simrt.Self(), Pipe: -1}
 		d := n.ds(addr)
 		l := n.listeners[addr]
 		switch {
